@@ -21,7 +21,8 @@ VAR_POOLS = [
 ]
 CONCEPTS = ['alpha', 'beta', 'go-01', 'want-01', 'dog', 'bark-01', 'person', 'name', 'chapter',
             'a', 'b', 'x', '_',                          # concepts spelled like variables
-            '"string concept"', 'thing', 'and', 'café', '7']
+            '"string concept"', 'thing', 'and', 'café', '7',
+            'c#', 'ticket#42']                           # '#' inside a symbol is part of the symbol
 REIF_CONCEPTS_AMR = ['have-mod-91', 'be-located-at-91', 'have-quant-91', 'own-01', 'have-part-91',
                      'age-01', 'have-03']
 SYMBOLS = ['-', '+', 'imperative', 'expressive', 'foo', 'bar-baz', 'x.y', 'A', 'Ünï']
